@@ -1203,7 +1203,11 @@ class ValueMap(Value):
         return self.value == other.value
 
     def __lt__(self, other):
-        return str(self) < str(other)
+        mine, others = str(self), str(other)
+        if mine == others and isinstance(other, ValueMap):
+            # one text, two maps (functions of one name inside): by content
+            return self.getSortedEntries() < other.getSortedEntries()
+        return mine < others
 
     def getSortedEntries(self):
         # (key, value) pairs in key order, taken from the entries themselves:
@@ -1573,7 +1577,11 @@ class ValueSet(Value):
         return self.value == other.value
 
     def __lt__(self, other):
-        return str(self) < str(other)
+        mine, others = str(self), str(other)
+        if mine == others and isinstance(other, ValueSet):
+            # one text, two sets (functions of one name inside): by content
+            return self.getSortedItems() < other.getSortedItems()
+        return mine < others
 
     def __repr__(self):
         inner = ", ".join([str(item) for item in self.getSortedItems()])
